@@ -125,9 +125,16 @@ pub fn emit_mp4<W: Write>(out: &mut W, id: &str, s: &Sparse, cfg: &Cfg, kind: Ki
         }
     }
     let b = run_mp4_metered(&s2, cfg, kind);
+    // the async entry point over a native AsyncSkip reader whose every operation is suspended once: the same answer and
+    // the same bytes obtained from the input (media is not inspected under any schedule either)
+    let (pres, pranges) = crate::quiet(AssertUnwindSafe(|| {
+        let (o, r) = crate::c12::run_async_metered_every_op_suspended(s, cfg, kind == Kind::Strict);
+        (mp4_text(&o).0, r)
+    }))
+    .unwrap_or(("panic".into(), "-".into()));
     writeln!(
         out,
-        "C10 id={id} san=mp4 {} {} kind={} res={} mdlen={} read={} calls={} ranges={} peak={} alt={} altread={}",
+        "C10 id={id} san=mp4 {} {} kind={} res={} mdlen={} read={} calls={} ranges={} peak={} alt={} altread={} pend={pres} pendranges={pranges}",
         s.line(),
         cfg.line(),
         kind.name(),
